@@ -55,7 +55,7 @@ impl Area for C16Area {
             let o = |rng: &mut Rng, pool: &[&str]| -> String { if rng.chance(35) { "none".to_string() } else { hex_list(&[rng.pick(pool)]) } };
             let name = if rng.chance(15) { "none".to_string() } else { hex_list(&[rng.pick(&["raw", "r:x", "raw", ""])]) };   // "" = a name that is present but empty
             let ty = *rng.pick(&["counter", "gauge", "none", "none"]);
-            let (cv, gv) = match rng.below(3) { 0 => (f64_hex(*rng.pick(&[1.0, 2.5, 0.0, -0.0])), "none".to_string()), 1 => ("none".to_string(), f64_hex(*rng.pick(&[3.0, -1.0, -0.0, 0.0]))), _ => ("none".to_string(), "none".to_string()) };
+            let (cv, gv) = match rng.below(4) { 3 => (f64_hex(*rng.pick(&[1.0, 2.5])), f64_hex(*rng.pick(&[3.0, -1.0]))), /* both value kinds set on one Metric */ 0 => (f64_hex(*rng.pick(&[1.0, 2.5, 0.0, -0.0])), "none".to_string()), 1 => ("none".to_string(), f64_hex(*rng.pick(&[3.0, -1.0, -0.0, 0.0]))), _ => ("none".to_string(), "none".to_string()) };
             let label = rng.chance(50);
             stats.hit("raw-family");
             lines.push(format!("c16 raw name={} help={} type={} label={} lname={} lval={} cv={} gv={} ts={}", name, o(rng, &["h", "é\n"]), ty, if label { "yes" } else { "no" }, o(rng, &["l", "k"]), o(rng, &["v", "\"q\""]), cv, gv, rng.pick(&["none", "none", "5", "-7", "0"])));
